@@ -184,7 +184,7 @@ type selVec struct {
 // TestVerifSelect replays every PoolSelect vector: for both strategies and every previous best
 // (0 = none) it runs the real updateBest and observes the choice through BestMasterchainClient.
 func TestVerifSelect(t *testing.T) {
-	in, out := os.Getenv("VERIF_IN"), os.Getenv("VERIF_OUT")
+	in, out := os.Getenv("C13_IN"), os.Getenv("C13_OUT")
 	if in == "" || out == "" {
 		t.Skip("driver only")
 	}
